@@ -37,7 +37,7 @@ Proof. unfold enqueue. destruct (buf_at s d); repeat split. Qed.
 Ltac layer :=
   solve [ unfold Fr;
           cbn [sr hist cur prev red_done filter is_sr emit set_bufs set_sbb set_dq set_sendq set_pend set_cbs set_intr set_inprq
-               set_rcnt set_scnt set_ictr set_ret set_depth set_masks set_flags set_shared set_nbar set_inmain set_oracle set_enq];
+               set_rcnt set_scnt set_ictr set_ret set_depth set_masks set_flags set_shared set_nbar set_inmain set_oracle set_enq set_hist];
           repeat split; reflexivity ].
 Ltac fr :=
   match goal with
@@ -72,6 +72,7 @@ Section Barrier.
       repeat (cbv zeta; match goal with
       | |- resF _ (Ok _) => cbn [resF]; fr
       | |- resF _ (Blocked _) => exact I
+      | |- resF _ (err _ _) => exact I
       | |- resF _ (_ >>= _) => eapply resF_bind; [|intros ? ?]
       | |- resF ?s0 (run _ _ ?q ?x) => eapply (resF_trans s0 x); [fr|apply IH; exact I]
       | |- resF _ (ask _ _ _) => unfold ask; cbn [oracle emit]
